@@ -742,6 +742,9 @@ func exprText(e ast.Expr) string {
 		if e.Len == nil {
 			return "[]" + exprText(e.Elt)
 		}
+		if l, ok := e.Len.(*ast.BasicLit); ok {
+			return "[" + l.Value + "]" + exprText(e.Elt)
+		}
 	}
 	return fmt.Sprintf("%T", e)
 }
